@@ -227,7 +227,11 @@ func (b *verifB) name(i int) { b.p(verifNames[i%len(verifNames)]) }
 // ---- shared fragments ----
 
 func (b *verifB) expr() {
-	switch b.alt(6) {
+	switch b.alt(8) {
+	case 6:
+		b.p("- 1")
+	case 7:
+		b.p("x * + 1.5")
 	case 0:
 		b.p("1")
 	case 1:
@@ -253,9 +257,7 @@ func (b *verifB) simpleExpr() {
 
 // typ is a query type (no length parameters).
 func (b *verifB) typ() {
-	switch b.alt(6) {
-	case 5:
-		b.p("`INT64`")
+	switch b.alt(5) {
 	case 0:
 		b.w("INT64")
 	case 1:
@@ -978,7 +980,9 @@ func verifFamExprPrimary(b *verifB) {
 
 func verifFamType(b *verifB) {
 	b.kind, b.entry = "", verifEType
-	switch b.altFree(5) {
+	switch b.altFree(6) {
+	case 5:
+		b.p("`INT64`") // a simple type name may be written with back quotes
 	case 0:
 		b.typ()
 	case 1:
